@@ -337,7 +337,11 @@ fn ref_uleb_len(mut v: u64) -> usize {
 fn chunk_header_new_any_data_len() {
     let n: usize = kani::any();
     kani::assume(n <= (1 << 22));
-    let h = Header::new(any_chunk_type(), &BIG[..n]);
+    header_new_body(n, any_chunk_type());
+}
+
+fn header_new_body(n: usize, ct: ChunkType) {
+    let h = Header::new(ct, &BIG[..n]);
     assert!(h.data_len == n);
     assert!(h.header_size == 9 + ref_uleb_len(n as u64));
     assert!(h.len() == h.header_size);
@@ -348,4 +352,14 @@ fn chunk_header_new_any_data_len() {
     kani::cover!(n == (1 << 21));
     kani::cover!(n == 0x3f_ffff);
     std::mem::forget(out);
+}
+
+/// Native replay grid for chunk_header_new_any_data_len (CBMC's trace over the 4 MiB array is too
+/// slow for Kani to emit a playback test in time): the same body at every LEB128 width boundary.
+#[test]
+fn replay_grid_chunk_header_new() {
+    for n in [0usize, 1, 127, 128, 16383, 16384, 20000, 32767, 32768, (1 << 21) - 1, 1 << 21, (1 << 21) + 1, 3 << 20, 1 << 22] {
+        header_new_body(n, ChunkType::Document);
+        header_new_body(n, ChunkType::Change);
+    }
 }
